@@ -106,13 +106,13 @@ structure AfterDup (P : Par) (s s' : Srv) (pkt : List Nat) : Prop where
   pkt : ∃ y : Session, pkt = scPkt y 0 ∧ y.outpacket = (getUser s P.u).outpacket ∧ y.inpacket = (getUser s P.u).inpacket
 
 theorem srv_recv_dup {P : Par} (hP : P.Ok) {s : Srv} (hS : SStat P s) (hi : IdleImm (getUser s P.u)) {k : Nat}
-    (hk : k < 36) (hA : Aged P (getUser s P.u) k 1) {sd sl : Nat} (hPA : PAged P (getUser s P.u) sd sl)
+    (hk : k < 36) {sl : Nat} (hA : Aged P (getUser s P.u) k sl) {sd sp : Nat} (hPA : PAged P (getUser s P.u) sd sp)
     {Q : Query} {sq fr : Nat} {dsq dfr : Int} {lst : Bool} {chunk : List Nat}
     (hQ : UpQ P Q ⟨sq, fr, dsq, dfr, lst⟩ k chunk)
-    (hW : InWindow (getUser s P.u) sq fr) :
+    (hW : InWindow (getUser s P.u) sq fr) (hsl : 1 ≤ sl ∧ sl ≤ 21 := by omega) :
     ∃ s' evs t pkt, iteration s (.q Q) s.now = (s', evs, t) ∧ downOfEvents evs = [.ans Q.id Q.type Q.name pkt] ∧
-      tunOfSEvents evs = [] ∧ AfterDup P s s' pkt ∧ Aged P (getUser s' P.u) ((k + 1) % 36) 1 ∧
-      PAged P (getUser s' P.u) sd sl := by
+      tunOfSEvents evs = [] ∧ AfterDup P s s' pkt ∧ Aged P (getUser s' P.u) ((k + 1) % 36) sl ∧
+      PAged P (getUser s' P.u) sd sp := by
   have hf : Fresh P (getUser s P.u) k (0 + 1) := hA.fresh hk (by omega)
   obtain ⟨dlen, hdl, h6, hparse, hpl⟩ := hQ.parse
   have htop := topSess_live hS
@@ -121,8 +121,8 @@ theorem srv_recv_dup {P : Par} (hP : P.Ok) {s : Srv} (hS : SStat P s) (hi : Idle
   have hx0s : XStat P x0 := by subst hx0; exact ⟨hS.x.active, hS.x.auth, hS.x.enabled, hS.x.conn, hS.x.enc, hS.x.oseq, hS.x.ofrag, hS.x.iseq, hS.x.ifrag⟩
   have hx0i : IdleImm x0 := by subst hx0; exact ⟨hi.out, hi.q, hi.qs, hi.lazy⟩
   have hx0f : Fresh P x0 k (0 + 1) := by subst hx0; exact ⟨hf.cache, hf.qmem⟩
-  have hx0A : Aged P x0 k 1 := by subst hx0; exact hA.congr rfl rfl rfl rfl
-  have hx0P : PAged P x0 sd sl := by subst hx0; exact hPA.congr rfl rfl rfl rfl
+  have hx0A : Aged P x0 k sl := by subst hx0; exact hA.congr rfl rfl rfl rfl
+  have hx0P : PAged P x0 sd sp := by subst hx0; exact hPA.congr rfl rfl rfl rfl
   have hx0w : InWindow x0 sq fr := by subst hx0; exact hW
   have hx0n : x0.inpacket = (getUser s P.u).inpacket := by subst hx0; rfl
   have hx0o : x0.outpacket = (getUser s P.u).outpacket := by subst hx0; rfl
@@ -213,7 +213,7 @@ theorem srv_recv_dup {P : Par} (hP : P.Ok) {s : Srv} (hS : SStat P s) (hi : Idle
         rw [this, hx0n]
   · rw [hg]
     subst hY
-    have hyA : Aged P y k 1 := by
+    have hyA : Aged P y k sl := by
       subst hy
       exact hx0A.congr rfl rfl rfl rfl
     have := (hyA.step hk (by omega)).memo Q (scPkt y 0) (scPkt0_len y) k 1 ⟨by omega, by omega⟩ (behind_next k hk) hk hQ.c4 hQ.len5
@@ -221,7 +221,7 @@ theorem srv_recv_dup {P : Par} (hP : P.Ok) {s : Srv} (hS : SStat P s) (hi : Idle
     exact this.congr rfl rfl rfl rfl
   · rw [hg]
     subst hY
-    have hyP : PAged P y sd sl := by
+    have hyP : PAged P y sd sp := by
       subst hy
       exact hx0P.congr rfl rfl rfl rfl
     have := hyP.memo_data hP.hu Q (scPkt y 0) (scPkt0_len y) hQ.len5 hQ.c0
